@@ -102,3 +102,37 @@ _PENDING = 'check under construction in this session (see DESIGN.md section 4); 
 NA = {}
 NA['C09'] = ('refinement of an ideal ordered map over operation histories with live iterators: its mechanisms are co-located with the mutations they protect inside single template functions; '
              'no sound structural necessary condition was found that is not either compiler-enforced or a frozen-fragment match (DESIGN.md section 4, C09)')
+
+# Clauses added after the adversarial round (DESIGN.md section 9); appended to the claim text of the property.
+ADDED = {
+ 'C01': 'Added after the adversarial round: bulk transfers through Queue::HeadPointer() only after Clear()/Normalize() (ring buffer); reader-side size rejections admit an exact fit and the count bound '
+        'available/K uses a K no larger than the writer\'s minimum entry size (from the writer polynomial); the per-item checksum term of each array class equals that of the inline codec.',
+ 'C02': 'Added after the adversarial round: a checking call whose parameter is signed does not bound an unsigned wire value; a bound `size - n` with wire-derived n needs n <= size; DEST-CAPACITY (copies into a '
+        'ByteBuffer are bounded by that buffer\'s own size) and CURSOR-BOUND (copies from buffer[cursor] in a loop are bounded by a loop-updated quantity).',
+ 'C03': 'Added after the adversarial round: STREAM-CARRY (content-derived parser state carried from byte to byte is not a per-call local in stream mode), CODEC-STEP (a successful dependent-mode Deflate result is '
+        'always what is sent), TEMPLATE-LRU (sender and receiver maintain their template caches by the same operations), RECV-CAPACITY (the receive buffer is kept only under a test that accounts for header and body).',
+ 'C04': 'Added after the adversarial round: FLUSH-ORDER is path-based (no path from "a set for this path is pending" to the removal entry without a flush); the existing-subscription lookup uses the depth of the '
+        'looked-up string; SetData captures the old payload before overwriting it.',
+ 'C05': 'Added after the adversarial round: ONCE is now decided from the traversal\'s own pop-up arithmetic (this found that a routed Message was delivered once per matching node; fixed), MATCH-RECHECK (the '
+        'shortcut around the full-path re-check requires a single pattern; fixed) and DEFAULT-ROUTE (the keys field is really stored in the parameter set; fixed); the already-visited table spans all patterns; '
+        'RemoveParameter removes the field last; StringMatcher::SetPattern always clears its numeric ranges.',
+ 'C06': 'Added after the adversarial round: shared subscriber tables are modified in place only under GetRefCount() == 2; the host node is removed at teardown only when it has no children; the recursive '
+        'removal drains all children in a loop.',
+ 'C07': 'Added after the adversarial round: REGEX-VALID (the compiled regex is used/freed only under its validity flag, which is raised only in dependence on regcomp() == 0).',
+ 'C08': 'Added after the adversarial round: the C++ reader accepts what the writers produce (EXACT-FIT, MIN-ENTRY, RECV-CAPACITY) and the C micro writer maintains its item-count word by the number of items appended.',
+ 'C11': 'Added after the adversarial round: the SEND-ORDER slot follows the flag that guards the signal calls (data flow, not a frozen expression); closing both wake-up sockets clears the allocated flag.',
+ 'C12': 'Added after the adversarial round: FIT-ACCOUNT (the mini tunnel sender\'s fit test counts exactly the bytes the guarded branch writes) and REF-AFTER-REMOVE (no use of a queue-element reference after '
+        'the element was removed, in the packet I/O classes that supply the source address).',
+ 'C13': 'Added after the adversarial round: INDEX-OBSERVERS (session-side InsertOrderedChild announces through `this` unconditionally and sets _indexingPresent; generated child names are checked with HasChild).',
+ 'C14': 'Added after the adversarial round: INDEX-USED (every value filter reads the field item at GetIndex()).',
+ 'C15': 'Added after the adversarial round: ESCAPE-PARITY over all escape-flag scanners, rewrites only outside escape mode, REGEX-VALID, RANGES-RESET, and the negate flag of SegmentedStringMatcher is set after the clear.',
+ 'C16': 'Added after the adversarial round: RING-AWARE reset loops, INDEX-WRAP (>= in the wrap test), ALIAS-GUARD (unconditional self-reference test before an in-place shift).',
+ 'C17': 'Added after the adversarial round, two structural conditions of the in-memory clause: LENGTH-LAST (no buffer move after SetLength()) and SELF-ALIAS (IsCharInLocalArray before a contents-keeping buffer move).',
+ 'C18': 'Added after the adversarial round: RESTORE (read locks released for an upgrade are re-acquired on every path, so a failed try/timed upgrade leaves the state unchanged).',
+ 'C19': 'Added after the adversarial round: the outstanding-work predicate consults every per-client table; the deferred queue is promoted whenever it is non-empty.',
+ 'C20': 'Added after the adversarial round: LINKS (no sibling link loaded before a Pulse callback is used after it; ordering comparisons use the same field on both sides; the head-of-schedule test precedes the unlink).',
+}
+for _k, _v in ADDED.items():
+    CLAIMS[_k]['text'] = CLAIMS[_k]['text'] + ' ' + _v
+CLAIMS['C17']['note'] = 'Narrow: the serialisation sentence plus two structural necessary conditions of the in-memory operations; the ideal-string refinement is not decided.'
+CLAIMS['C01']['text'] = CLAIMS['C01']['text'].replace('Bit-identity of values, field order and checksum/equality invariance are not decided.', 'Bit-identity of values, field order and equality invariance are not decided; of the checksum only the array/inline agreement is.')
